@@ -630,6 +630,11 @@ def check_c06(pid, tier, seed):
     traces = run_scripts(wvbin, wd, "c06", sessions)
     validate_search_traces(chk, traces, pid, files=files)
     mate_certificates(chk, wvbin, wd, pid, quick, seed)
+    # white box on mate / look-alike positions (terminal scoring, history hits inside the tree): conformance only
+    mfens = [l.strip() for l in open(os.path.join(CORPUS, "mates.fen")) if l.strip() and not l.startswith("#")]
+    wbs = [{"id": 900000 + i, "steps": [{"fen": f, "depth": 4 if len([c for c in f.split()[0] if c.isalpha()]) <= 14 else 3, "seed": rnd.randrange(1 << 30), "workers": 1 + i % 2, "tables": 2, "buckets": 256, "tag": "whitebox"}]}
+           for i, f in enumerate(mfens if not quick else mfens[::2] + mfens[-5:])]
+    whitebox(chk, wvbin, wd, pid, wbs)
     st, samples = trace_stats(traces)
     ver = json.load(open(os.path.join(WORK, "tb", "verified.json")))
     chk.coverage.update({"evaluations": st["searches"], "distinct_nontrivial": st["mate_reports"],
